@@ -116,9 +116,45 @@ theorem Line3_distanceToPoint (tmin tmax : α) (sqrt : α → α) (hlen : LenSpe
       simp only [dist2, dot, sub]; ring
     rw [hsym]; exact this
 
+/-- `closestPointTo(line)` by cases on its guard, for ARBITRARY directions -/
+theorem closestPointToLine_cases (tmax : α) (l1 l2 : Line3 α) :
+    (Gen.Line3.closestPointToLine tmax l1 l2 = lineAt l1 (cplNum l1 l2 / cplDen l1 l2) ∧
+      (|cplNum l1 l2| < |cplDen l1 l2| * tmax ∨ 1 ≤ |cplDen l1 l2|)) ∨
+    (Gen.Line3.closestPointToLine tmax l1 l2 = l1.pos ∧ |cplDen l1 l2| < 1 ∧ |cplDen l1 l2| * tmax ≤ |cplNum l1 l2|) := by
+  simp only [Gen.Line3.closestPointToLine, cplNum, cplDen, dot, sub, lineAt]
+  split_ifs with h1 h2 h3 h4 h5 h6 h7 h8 h9
+  all_goals first
+    | (left; refine ⟨by ac_rfl_nf, ?_⟩
+       first
+        | (right; rw [abs_of_nonneg (by linarith)]; linarith)
+        | (right; rw [abs_of_neg (by linarith)]; linarith)
+        | (left; rw [abs_of_nonneg (by linarith), abs_of_nonneg (by linarith)]; linarith)
+        | (left; rw [abs_of_nonneg (by linarith), abs_of_neg (by linarith)]; linarith)
+        | (left; rw [abs_of_neg (by linarith), abs_of_nonneg (by linarith)]; linarith)
+        | (left; rw [abs_of_neg (by linarith), abs_of_neg (by linarith)]; linarith))
+    | (right; refine ⟨by cases l1; rfl, ?_, ?_⟩
+       · first
+          | (rw [abs_of_nonneg (by linarith)]; linarith)
+          | (rw [abs_of_neg (by linarith)]; linarith)
+       · first
+          | (rw [abs_of_nonneg (by linarith), abs_of_nonneg (by linarith)]; linarith)
+          | (rw [abs_of_nonneg (by linarith), abs_of_neg (by linarith)]; linarith)
+          | (rw [abs_of_neg (by linarith), abs_of_nonneg (by linarith)]; linarith)
+          | (rw [abs_of_neg (by linarith), abs_of_neg (by linarith)]; linarith))
+
+/-- the guard under which the quotient is formed implies a non-zero denominator -/
+theorem cpl_guard_den_ne_zero (tmax : α) (l1 l2 : Line3 α)
+    (hg : |cplNum l1 l2| < |cplDen l1 l2| * tmax ∨ 1 ≤ |cplDen l1 l2|) : cplDen l1 l2 ≠ 0 := by
+  intro h0
+  rw [h0, abs_zero, zero_mul] at hg
+  rcases hg with hg | hg
+  · exact absurd hg (not_lt.mpr (abs_nonneg _))
+  · linarith
+
 /-- `closestPointTo(line)` (unit directions, as the code assumes).  The result is always a point of `l1`.
 Parallel lines are handled: the result is `l1.pos` (every point is a nearest one; nothing is divided by zero in the
-C++: the guard `|num| ≥ |denom|·max` fires with `0 ≥ 0`).  Otherwise, with `s = cplParam l1 l2` the parameter of the
+C++: the guard `|num| ≥ |denom|·max` fires with `0 ≥ 0` — proved from the guard, not from Lean's `x/0 = 0`: see
+`closestPointToLine_cases` and `Line3_closestPointToLine_no_div_by_zero`).  Otherwise, with `s = cplParam l1 l2` the parameter of the
 foot of the common perpendicular (the segment from `l1(s)` to its nearest point on `l2` is perpendicular to BOTH
 directions), the result is `l1(s)` whenever `|s| < tmax`, and is `l1(s)` or — only if `|s| ≥ tmax`, the overflow
 guard — `l1.pos`. -/
@@ -134,48 +170,26 @@ theorem Line3_closestPointToLine (tmax : α) (l1 l2 : Line3 α) (hu1 : dot l1.di
   have hle := unit_dot_sq_le l2.dir l1.dir hu2 hu1
   have hpos0 : l1.pos = lineAt l1 0 := by
     cases l1; simp only [lineAt, mul_zero, add_zero]
-  -- the two possible results
-  have hres : (Gen.Line3.closestPointToLine tmax l1 l2 = lineAt l1 (cplParam l1 l2) ∧
-        (|dot l1.dir (sub l1.pos l2.pos) - dot l2.dir l1.dir * dot l2.dir (sub l1.pos l2.pos)| < |dot l2.dir l1.dir * dot l2.dir l1.dir - 1| * tmax
-          ∨ 1 ≤ |dot l2.dir l1.dir * dot l2.dir l1.dir - 1|)) ∨
-      (Gen.Line3.closestPointToLine tmax l1 l2 = l1.pos ∧
-        |dot l2.dir l1.dir * dot l2.dir l1.dir - 1| * tmax ≤ |dot l1.dir (sub l1.pos l2.pos) - dot l2.dir l1.dir * dot l2.dir (sub l1.pos l2.pos)|) := by
-    simp only [Gen.Line3.closestPointToLine, cplParam, dot, sub, lineAt]
-    split_ifs with h1 h2 h3 h4 h5 h6 h7 h8 h9
-    all_goals first
-      | (left; refine ⟨by ac_rfl_nf, ?_⟩
-         first
-          | (right; rw [abs_of_nonneg (by linarith)]; linarith)
-          | (right; rw [abs_of_neg (by linarith)]; linarith)
-          | (left; rw [abs_of_nonneg (by linarith), abs_of_nonneg (by linarith)]; linarith)
-          | (left; rw [abs_of_nonneg (by linarith), abs_of_neg (by linarith)]; linarith)
-          | (left; rw [abs_of_neg (by linarith), abs_of_nonneg (by linarith)]; linarith)
-          | (left; rw [abs_of_neg (by linarith), abs_of_neg (by linarith)]; linarith))
-      | (right; refine ⟨by cases l1; rfl, ?_⟩
-         first
-          | (rw [abs_of_nonneg (by linarith), abs_of_nonneg (by linarith)]; linarith)
-          | (rw [abs_of_nonneg (by linarith), abs_of_neg (by linarith)]; linarith)
-          | (rw [abs_of_neg (by linarith), abs_of_nonneg (by linarith)]; linarith)
-          | (rw [abs_of_neg (by linarith), abs_of_neg (by linarith)]; linarith))
-  have habs : dot l2.dir l1.dir ^ 2 ≠ 1 → |cplParam l1 l2| * |dot l2.dir l1.dir * dot l2.dir l1.dir - 1|
-      = |dot l1.dir (sub l1.pos l2.pos) - dot l2.dir l1.dir * dot l2.dir (sub l1.pos l2.pos)| ∧ 0 < |dot l2.dir l1.dir * dot l2.dir l1.dir - 1| := by
+  -- the two possible results (`closestPointToLine_cases`, which needs no unit directions)
+  have hres := closestPointToLine_cases tmax l1 l2
+  have habs : dot l2.dir l1.dir ^ 2 ≠ 1 → |cplParam l1 l2| * |cplDen l1 l2| = |cplNum l1 l2| ∧ 0 < |cplDen l1 l2| := by
     intro hnp
-    have hden : dot l2.dir l1.dir * dot l2.dir l1.dir - 1 ≠ 0 := fun h => hnp (by linear_combination h)
+    have hden : cplDen l1 l2 ≠ 0 := fun h => hnp (by unfold cplDen at h; linear_combination h)
     refine ⟨?_, abs_pos.mpr hden⟩
-    rw [← abs_mul]; congr 1; unfold cplParam; field_simp
+    rw [← abs_mul, cplParam_eq]; congr 1; field_simp
   refine ⟨?_, ?_, ?_⟩
-  · rcases hres with ⟨h, _⟩ | ⟨h, _⟩
+  · rcases hres with ⟨h, _⟩ | ⟨h, _, _⟩
     · exact ⟨_, h⟩
     · exact ⟨0, by rw [h]; exact hpos0⟩
   · intro hpar
-    have hD : dot l2.dir l1.dir * dot l2.dir l1.dir - 1 = 0 := by linear_combination hpar
-    rcases hres with ⟨h, _⟩ | ⟨h, _⟩
-    · rw [h, cplParam, hD, div_zero]; exact hpos0.symm
+    have hD : cplDen l1 l2 = 0 := by unfold cplDen; linear_combination hpar
+    rcases hres with ⟨h, hg⟩ | ⟨h, _, _⟩
+    · exact absurd hD (cpl_guard_den_ne_zero tmax l1 l2 hg)
     · exact h
   · intro hnp
     obtain ⟨hs, hDpos⟩ := habs hnp
     constructor
-    · rcases hres with ⟨h, _⟩ | ⟨h, hg⟩
+    · rcases hres with ⟨h, _⟩ | ⟨h, _, hg⟩
       · exact Or.inl h
       · refine Or.inr ⟨?_, h⟩
         rw [← hs] at hg
@@ -184,11 +198,23 @@ theorem Line3_closestPointToLine (tmax : α) (l1 l2 : Line3 α) (hu1 : dot l1.di
         nlinarith
     refine ⟨?_, by rw [Line3_closestPointToPoint_def]; exact cplParam_perp l1 l2 hu1 hu2 hnp⟩
     · intro hlt
-      rcases hres with ⟨h, _⟩ | ⟨h, hg⟩
+      rcases hres with ⟨h, _⟩ | ⟨h, _, hg⟩
       · exact h
       · exfalso
         rw [← hs] at hg
         nlinarith
+
+/-- no division by zero in `closestPointTo(line)`, for arbitrary directions: a zero denominator (parallel unit lines) takes the
+guard branch (`0·max ≤ |num|`) and returns `pos`; a result different from `pos` was computed as a quotient under the guard, whose
+denominator is not zero -/
+theorem Line3_closestPointToLine_no_div_by_zero (tmax : α) (l1 l2 : Line3 α) :
+    (cplDen l1 l2 = 0 → Gen.Line3.closestPointToLine tmax l1 l2 = l1.pos ∧ |cplDen l1 l2| * tmax ≤ |cplNum l1 l2|) ∧
+    (Gen.Line3.closestPointToLine tmax l1 l2 ≠ l1.pos →
+      cplDen l1 l2 ≠ 0 ∧ (|cplNum l1 l2| < |cplDen l1 l2| * tmax ∨ 1 ≤ |cplDen l1 l2|) ∧
+      Gen.Line3.closestPointToLine tmax l1 l2 = lineAt l1 (cplNum l1 l2 / cplDen l1 l2)) := by
+  rcases closestPointToLine_cases tmax l1 l2 with ⟨h, hg⟩ | ⟨h, _, hg⟩
+  · refine ⟨fun h0 => absurd h0 (cpl_guard_den_ne_zero tmax l1 l2 hg), fun _ => ⟨cpl_guard_den_ne_zero tmax l1 l2 hg, hg, h⟩⟩
+  · exact ⟨fun _ => ⟨h, hg⟩, fun hne => absurd h hne⟩
 
 /-! ## closestPoints (ImathLineAlgo.h) -/
 
@@ -478,8 +504,10 @@ theorem Plane3_reflectPoint (pl : Plane3 α) (p : V3 α) :
     · linear_combination (4 * pl.normal.y * (px * pl.normal.x + py * pl.normal.y + pz * pl.normal.z - pl.distance)) * hu
     · linear_combination (4 * pl.normal.z * (px * pl.normal.x + py * pl.normal.y + pz * pl.normal.z - pl.distance)) * hu
 
-/-- `reflectVector v = 2(n·v)n − v` (the mirror-direction convention: the normal component is kept, the tangential
-component is negated); for a unit normal it is an involution and preserves length -/
+/-- `reflectVector v = 2(n·v)n − v`: what the CODE does (the normal component is kept, the tangential component is negated — the
+negative of the mirror image); for a unit normal it is an involution and preserves length.  The property text's "negates signed
+distance" does NOT hold for it: `Plane3_reflectVector_keeps_normal_component_witness`, finding
+`reflectVector:normal-component-kept-not-negated`. -/
 theorem Plane3_reflectVector (pl : Plane3 α) (v : V3 α) :
     Gen.Plane3.reflectVector pl v = sub (smul (2 * dot pl.normal v) pl.normal) v ∧
     (dot pl.normal pl.normal = 1 →
@@ -667,9 +695,158 @@ theorem Plane3_mulM44_sides (tmin tmax : α) (sqrt : α → α) (hlen : LenSpec 
       linarith
     · intro h0; exact mul_neg_of_pos_of_neg hpos h0
 
-/-! `Plane3_mulM44` covers non-singular AFFINE matrices with `m[3][3] = 1`.  Missing (would be `_partial` items of the
-full property): projective matrices (the `Vec3 * Matrix44` homogeneous divide is in the model, `Plane3_mulM44_cases`
-holds for every `M`, but the incidence statement for a projective map is not proved) and singular matrices. -/
+/-! `Plane3_mulM44` covers non-singular AFFINE matrices with `m[3][3] = 1`.  Projective and singular matrices: the theorems
+below (`Plane3_mulM44_projective` and its corollaries) hold for EVERY 4×4 matrix under the single hypothesis that the homogeneous
+`w` of the three points the code rebuilds the plane from does not vanish (`MulM44Defined`; for an affine matrix it is `1`).
+Not covered: a construction point with `w = 0` (the C++ divides by zero there), and a statement about "sides" for projective
+maps (the sign relation is in `Plane3_mulM44_projective`; which side a point ends up on depends on the signs of the `w`s). -/
+
+/-- `plane * M` for EVERY 4×4 matrix `M` (projective, singular, anything), for a plane with unit normal, as long as the
+homogeneous `w` of the three points the code rebuilds the plane from does not vanish (`MulM44Defined`).  The result is the zero
+plane `⟨0, 0⟩` (collinear images; nothing is divided by zero) or has a unit normal, and there are `κ ≥ 0` and `W ≠ 0` (the product
+of the three construction `w`s) with
+`signedDist (plane*M) (p*M) · (w(p)·W) = κ · det M · signedDist plane p` for every point `p` with `w(p) ≠ 0`;
+`κ > 0` and the normal is a unit vector when `det M ≠ 0`.  For an affine `M` all `w`s are 1 and `det M = det3 M`: this is
+`Plane3_mulM44`. -/
+theorem Plane3_mulM44_projective (tmin tmax : α) (sqrt : α → α) (hlen : LenSpec (Gen.V3.length tmin tmax sqrt)) (pl : Plane3 α) (m : M44 α)
+    (hu : dot pl.normal pl.normal = 1) (hw : MulM44Defined pl m) :
+    (Gen.Plane3.mulM44 tmin tmax sqrt pl m = ⟨zero, 0⟩ ∨
+      dot (Gen.Plane3.mulM44 tmin tmax sqrt pl m).normal (Gen.Plane3.mulM44 tmin tmax sqrt pl m).normal = 1) ∧
+    ∃ κ W, 0 ≤ κ ∧ W ≠ 0 ∧
+      (det4 m ≠ 0 → 0 < κ ∧ dot (Gen.Plane3.mulM44 tmin tmax sqrt pl m).normal (Gen.Plane3.mulM44 tmin tmax sqrt pl m).normal = 1) ∧
+      ∀ p, wOf p m ≠ 0 →
+        signedDist (Gen.Plane3.mulM44 tmin tmax sqrt pl m) (mulM44 p m) * (wOf p m * W) = κ * det4 m * signedDist pl p := by
+  obtain ⟨D, hD, h1, h2, h3, heq⟩ := Plane3_mulM44_cases tmin tmax sqrt pl m
+  have hDn : dot D pl.normal = 0 := by
+    rcases hD with h | h | h <;> (rw [h]; simp only [dot, cross]; ring)
+  have hDpos : 0 < dot D D := by
+    have hsum : dot (cross ⟨1, 0, 0⟩ pl.normal) (cross ⟨1, 0, 0⟩ pl.normal) + dot (cross ⟨0, 1, 0⟩ pl.normal) (cross ⟨0, 1, 0⟩ pl.normal)
+        + dot (cross ⟨0, 0, 1⟩ pl.normal) (cross ⟨0, 0, 1⟩ pl.normal) = 2 * dot pl.normal pl.normal := by
+      simp only [dot, cross]; ring
+    rw [hu] at hsum
+    linarith
+  obtain ⟨hw0, hwD⟩ := hw
+  obtain ⟨hw1, hw2⟩ := hwD D hD
+  have e1 : ∀ p, dot pl.normal (sub p (smul pl.distance pl.normal)) = signedDist pl p := by
+    intro p; simp only [dot, sub, smul, signedDist] at hu ⊢; linear_combination (-pl.distance) * hu
+  -- the projective core identity, with `D ⟂ n` and the unit normal
+  have hcore : ∀ p, wOf p m ≠ 0 →
+      dot (xformNormal pl.normal pl.distance m D) (sub (mulM44 p m) (mulM44 (smul pl.distance pl.normal) m))
+        * (wOf p m * (wOf (smul pl.distance pl.normal) m * wOf (add (smul pl.distance pl.normal) (cross D pl.normal)) m
+            * wOf (add (smul pl.distance pl.normal) D) m))
+        = det4 m * dot D D * signedDist pl p := by
+    intro p hp
+    have := plane_xform_core_proj pl.normal pl.distance m D p hw0 hw1 hw2 hp
+    rw [hDn, e1, zero_mul, sub_zero] at this
+    linear_combination this
+  have hW : wOf (smul pl.distance pl.normal) m * wOf (add (smul pl.distance pl.normal) (cross D pl.normal)) m
+      * wOf (add (smul pl.distance pl.normal) D) m ≠ 0 := mul_ne_zero (mul_ne_zero hw0 hw1) hw2
+  rw [heq]
+  by_cases hN : xformNormal pl.normal pl.distance m D = zero
+  · -- collinear images: the zero plane; then `det M = 0`
+    have hz : planeVia tmin tmax sqrt pl m D = ⟨zero, 0⟩ := Plane3_setPoints_degenerate tmin tmax sqrt hlen _ _ _ hN
+    have hdet0 : det4 m = 0 := by
+      -- a point off the plane whose `w` does not vanish: `point + n` or `point + 2n`
+      have hk : ∀ c : α, wOf (add (smul pl.distance pl.normal) (smul c pl.normal)) m
+          = wOf (smul pl.distance pl.normal) m + c * (pl.normal.x * m.x03 + pl.normal.y * m.x13 + pl.normal.z * m.x23) := by
+        intro c; simp only [wOf, add, smul]; ring
+      have hsd : ∀ c : α, signedDist pl (add (smul pl.distance pl.normal) (smul c pl.normal)) = c := by
+        intro c; simp only [signedDist, dot, add, smul] at hu ⊢; linear_combination (pl.distance + c) * hu
+      have key : ∀ c : α, c ≠ 0 → wOf (add (smul pl.distance pl.normal) (smul c pl.normal)) m ≠ 0 → det4 m = 0 := by
+        intro c hc hwc
+        have := hcore _ hwc
+        rw [hN, hsd] at this
+        have hz0 : dot (zero : V3 α) (sub (mulM44 (add (smul pl.distance pl.normal) (smul c pl.normal)) m) (mulM44 (smul pl.distance pl.normal) m)) = 0 := by
+          simp only [dot, zero]; ring
+        rw [hz0, zero_mul] at this
+        rcases mul_eq_zero.mp this.symm with h | h
+        · rcases mul_eq_zero.mp h with h | h
+          · exact h
+          · exact absurd h (ne_of_gt hDpos)
+        · exact absurd h hc
+      by_cases hw1n : wOf (add (smul pl.distance pl.normal) (smul 1 pl.normal)) m = 0
+      · apply key 2 two_ne_zero
+        rw [hk] at hw1n ⊢
+        intro h2
+        apply hw0
+        linear_combination 2 * hw1n - h2
+      · exact key 1 one_ne_zero hw1n
+    rw [hz]
+    refine ⟨Or.inl rfl, 0, _, le_refl _, hW, fun hne => absurd hdet0 hne, fun p _ => ?_⟩
+    simp only [signedDist, dot, zero]; ring
+  · obtain ⟨hunit, hP0, _, _, k, hk, hkN⟩ := Plane3_setPoints tmin tmax sqrt hlen _ _ _ hN
+    refine ⟨Or.inr hunit, dot D D / k, _, le_of_lt (div_pos hDpos hk), hW, fun _ => ⟨div_pos hDpos hk, hunit⟩, fun p hp => ?_⟩
+    have hc := hcore p hp
+    have e2 : ∀ v, dot (xformNormal pl.normal pl.distance m D) v = k * dot (planeVia tmin tmax sqrt pl m D).normal v := by
+      intro v
+      unfold xformNormal planeVia
+      rw [hkN]; simp only [dot, smul]; ring
+    have e3 : signedDist (planeVia tmin tmax sqrt pl m D) (mulM44 p m)
+        = dot (planeVia tmin tmax sqrt pl m D).normal (sub (mulM44 p m) (mulM44 (smul pl.distance pl.normal) m)) := by
+      have h0 : signedDist (planeVia tmin tmax sqrt pl m D) (mulM44 (smul pl.distance pl.normal) m) = 0 := hP0
+      simp only [signedDist, dot, sub] at h0 ⊢
+      linear_combination h0
+    rw [e3]
+    rw [e2] at hc
+    field_simp
+    linear_combination hc
+
+/-- corollary (ALL matrices, singular ones included): `plane * M` contains the image of every point of the plane -/
+theorem Plane3_mulM44_projective_contains (tmin tmax : α) (sqrt : α → α) (hlen : LenSpec (Gen.V3.length tmin tmax sqrt)) (pl : Plane3 α) (m : M44 α)
+    (hu : dot pl.normal pl.normal = 1) (hw : MulM44Defined pl m) (p : V3 α) (hp : wOf p m ≠ 0) (hon : OnPlane pl p) :
+    OnPlane (Gen.Plane3.mulM44 tmin tmax sqrt pl m) (mulM44 p m) := by
+  obtain ⟨_, κ, W, _, hW, _, h⟩ := Plane3_mulM44_projective tmin tmax sqrt hlen pl m hu hw
+  have := h p hp
+  unfold OnPlane at hon ⊢
+  rw [hon, mul_zero] at this
+  rcases mul_eq_zero.mp this with h | h
+  · exact h
+  · exact absurd h (mul_ne_zero hp hW)
+
+/-- corollary (non-singular `M`, projective or not): unit normal, and `p*M` is on `plane*M` ONLY for points `p` of the plane -/
+theorem Plane3_mulM44_projective_iff (tmin tmax : α) (sqrt : α → α) (hlen : LenSpec (Gen.V3.length tmin tmax sqrt)) (pl : Plane3 α) (m : M44 α)
+    (hu : dot pl.normal pl.normal = 1) (hw : MulM44Defined pl m) (hdet : det4 m ≠ 0) :
+    dot (Gen.Plane3.mulM44 tmin tmax sqrt pl m).normal (Gen.Plane3.mulM44 tmin tmax sqrt pl m).normal = 1 ∧
+    ∀ p, wOf p m ≠ 0 → (OnPlane (Gen.Plane3.mulM44 tmin tmax sqrt pl m) (mulM44 p m) ↔ OnPlane pl p) := by
+  obtain ⟨_, κ, W, _, hW, hk, h⟩ := Plane3_mulM44_projective tmin tmax sqrt hlen pl m hu hw
+  obtain ⟨hκ, hunit⟩ := hk hdet
+  refine ⟨hunit, fun p hp => ⟨fun hon => ?_, Plane3_mulM44_projective_contains tmin tmax sqrt hlen pl m hu hw p hp⟩⟩
+  have := h p hp
+  unfold OnPlane at hon ⊢
+  rw [hon, zero_mul] at this
+  rcases mul_eq_zero.mp this.symm with h | h
+  · rcases mul_eq_zero.mp h with h | h
+    · exact absurd h (ne_of_gt hκ)
+    · exact absurd h hdet
+  · exact h
+
+/-- corollary (SINGULAR `M`): the result plane contains the image of EVERY point, on or off the original plane (the whole image
+of `M` is flat), or it is the zero plane -/
+theorem Plane3_mulM44_singular (tmin tmax : α) (sqrt : α → α) (hlen : LenSpec (Gen.V3.length tmin tmax sqrt)) (pl : Plane3 α) (m : M44 α)
+    (hu : dot pl.normal pl.normal = 1) (hw : MulM44Defined pl m) (hdet : det4 m = 0) (p : V3 α) (hp : wOf p m ≠ 0) :
+    OnPlane (Gen.Plane3.mulM44 tmin tmax sqrt pl m) (mulM44 p m) := by
+  obtain ⟨_, κ, W, _, hW, _, h⟩ := Plane3_mulM44_projective tmin tmax sqrt hlen pl m hu hw
+  have := h p hp
+  unfold OnPlane
+  rw [hdet, mul_zero, zero_mul] at this
+  rcases mul_eq_zero.mp this with h | h
+  · exact h
+  · exact absurd h (mul_ne_zero hp hW)
+
+/-- the zero plane really occurs: a matrix whose linear part is zero (everything is mapped to the translation vector) -/
+theorem Plane3_mulM44_collapse (tmin tmax : α) (sqrt : α → α) (hlen : LenSpec (Gen.V3.length tmin tmax sqrt)) (pl : Plane3 α) (t : V3 α) :
+    Gen.Plane3.mulM44 tmin tmax sqrt pl ⟨0, 0, 0, 0, 0, 0, 0, 0, 0, 0, 0, 0, t.x, t.y, t.z, 1⟩ = ⟨zero, 0⟩ := by
+  obtain ⟨D, _, _, _, _, heq⟩ := Plane3_mulM44_cases tmin tmax sqrt pl ⟨0, 0, 0, 0, 0, 0, 0, 0, 0, 0, 0, 0, t.x, t.y, t.z, 1⟩
+  rw [heq]
+  apply Plane3_setPoints_degenerate tmin tmax sqrt hlen
+  simp only [mulM44, cross, sub, zero, mul_zero, add_zero, zero_add, div_one, sub_self, V3.mk.injEq, and_self]
+
+/-- the affine theorem is the special case `w ≡ 1`, `det M = det3 M` -/
+theorem affine_MulM44Defined (pl : Plane3 α) (m : M44 α) (haff : Affine m) : MulM44Defined pl m ∧ det4 m = det3 m ∧ ∀ p, wOf p m = 1 := by
+  obtain ⟨h03, h13, h23, h33⟩ := haff
+  have hw : ∀ p, wOf p m = 1 := by intro p; simp only [wOf, h03, h13, h23, h33, mul_zero, add_zero, zero_add]
+  refine ⟨⟨by rw [hw]; exact one_ne_zero, fun D _ => ⟨by rw [hw]; exact one_ne_zero, by rw [hw]; exact one_ne_zero⟩⟩, ?_, hw⟩
+  simp only [det4, det3, h03, h13, h23, h33]; ring
 
 /-! ## Sphere3 -/
 
@@ -734,6 +911,104 @@ theorem Sphere3_intersect (sqrt : α → α) (s : Sphere3 α) (l : Line3 α) :
       (Gen.Sphere3.intersect sqrt s l).2 = lineAt l (Gen.Sphere3.intersectT sqrt s l).2) := by
   simp only [Gen.Sphere3.intersect, Gen.Sphere3.intersectT, lineAt]
   split_ifs <;> exact ⟨rfl, fun h => by first | rfl | cases h⟩
+
+/-- `Sphere3::intersect` against the independent vocabulary (unit direction): `true` gives THE first point of the ray on the
+sphere; `false` means the ray misses it -/
+theorem Sphere3_intersect_geo (sqrt : α → α) (hsqrt : SqrtSpec sqrt) (s : Sphere3 α) (l : Line3 α) (hu : dot l.dir l.dir = 1) :
+    ((Gen.Sphere3.intersect sqrt s l).1 = true →
+      OnSphere s (Gen.Sphere3.intersect sqrt s l).2 ∧
+      ∃ t, 0 ≤ t ∧ (Gen.Sphere3.intersect sqrt s l).2 = lineAt l t ∧ ∀ t', 0 ≤ t' → OnSphere s (lineAt l t') → t ≤ t') ∧
+    ((Gen.Sphere3.intersect sqrt s l).1 = false → ∀ t, 0 ≤ t → ¬ OnSphere s (lineAt l t)) := by
+  obtain ⟨hv, hp⟩ := Sphere3_intersect sqrt s l
+  obtain ⟨ht, hf⟩ := Sphere3_intersectT sqrt hsqrt s l hu
+  constructor
+  · intro h
+    obtain ⟨h0, hon, hmin⟩ := ht (hv ▸ h)
+    rw [hp h]
+    exact ⟨hon, _, h0, rfl, hmin⟩
+  · intro h
+    exact hf (hv ▸ h)
+
+/-- what `Sphere3::intersectT` computes for ANY line (no unit-direction hypothesis, no hypothesis on `sqrt`): the roots of
+`t² + B t + C` (leading coefficient hard-wired to 1), the smaller one first -/
+theorem Sphere3_intersectT_cases (sqrt : α → α) (s : Sphere3 α) (l : Line3 α) :
+    (sphD s l < 0 ∧ Gen.Sphere3.intersectT sqrt s l = (false, 0)) ∨
+    (0 ≤ sphD s l ∧ 0 ≤ (-sphB s l - sqrt (sphD s l)) * (1 / 2) ∧
+      Gen.Sphere3.intersectT sqrt s l = (true, (-sphB s l - sqrt (sphD s l)) * (1 / 2))) ∨
+    (0 ≤ sphD s l ∧ (-sphB s l - sqrt (sphD s l)) * (1 / 2) < 0 ∧ 0 ≤ (-sphB s l + sqrt (sphD s l)) * (1 / 2) ∧
+      Gen.Sphere3.intersectT sqrt s l = (true, (-sphB s l + sqrt (sphD s l)) * (1 / 2))) ∨
+    (0 ≤ sphD s l ∧ (-sphB s l - sqrt (sphD s l)) * (1 / 2) < 0 ∧ (-sphB s l + sqrt (sphD s l)) * (1 / 2) < 0 ∧
+      (Gen.Sphere3.intersectT sqrt s l).1 = false) := by
+  obtain ⟨res, hres⟩ : ∃ res, res = Gen.Sphere3.intersectT sqrt s l := ⟨_, rfl⟩
+  rw [← hres]
+  simp only [Gen.Sphere3.intersectT] at hres
+  fun_arg_intro_at sqrt D hD hres
+  have hDs : D = sphD s l := by
+    rw [← hD]; (simp only [sphD, sphB, sphC, dot, sub]) <;> ring
+  generalize hr : sqrt (sphD s l) = r
+  have hB : 2 * (l.dir.x * (l.pos.x - s.center.x) + l.dir.y * (l.pos.y - s.center.y) + l.dir.z * (l.pos.z - s.center.z)) = sphB s l := by
+    simp only [sphB, dot, sub]
+  rw [hDs] at hres
+  rw [hr] at hres
+  simp only [hB] at hres
+  by_cases hd : sphD s l < 0
+  · rw [if_pos hd] at hres
+    exact Or.inl ⟨hd, hres⟩
+  · rw [if_neg hd] at hres
+    have hd' := not_lt.mp hd
+    split_ifs at hres with h0 h1
+    · exact Or.inr (Or.inr (Or.inr ⟨hd', h0, h1, by rw [hres]⟩))
+    · exact Or.inr (Or.inr (Or.inl ⟨hd', h0, not_lt.mp h1, hres⟩))
+    · exact Or.inr (Or.inl ⟨hd', not_lt.mp h0, hres⟩)
+
+/-- OUT OF DOMAIN (documents the precondition; `Line3(p,p)` has the zero direction, `Line3_set_degenerate`): for the zero
+direction the answer is `true` exactly when `pos` is in the closed ball, although for `pos` strictly inside no point of the
+(degenerate) line is on the sphere -/
+theorem Sphere3_intersectT_zero_dir (sqrt : α → α) (hsqrt : SqrtSpec sqrt) (s : Sphere3 α) (l : Line3 α) (h0 : l.dir = zero) :
+    ((Gen.Sphere3.intersectT sqrt s l).1 = true ↔ InBall s l.pos) ∧
+    (dist2 l.pos s.center < s.radius * s.radius → ∀ t, ¬ OnSphere s (lineAt l t)) := by
+  have hB : sphB s l = 0 := by simp only [sphB, h0, dot, zero]; ring
+  have hD : sphD s l = 4 * (s.radius * s.radius - dist2 l.pos s.center) := by
+    simp only [sphD, hB, sphC, dist2]; ring
+  constructor
+  · rcases Sphere3_intersectT_cases sqrt s l with ⟨hd, h⟩ | ⟨hd, _, h⟩ | ⟨hd, _, _, h⟩ | ⟨hd, h1, h2, h⟩
+    · rw [h]; simp only [InBall]; constructor
+      · intro hh; cases hh
+      · intro hh; rw [hD] at hd; linarith
+    · rw [h]; simp only [InBall]; exact ⟨fun _ => by rw [hD] at hd; linarith, fun _ => trivial⟩
+    · rw [h]; simp only [InBall]; exact ⟨fun _ => by rw [hD] at hd; linarith, fun _ => trivial⟩
+    · exfalso
+      obtain ⟨_, hr0⟩ := hsqrt _ hd
+      rw [hB] at h2; linarith
+  · intro hlt t hon
+    have : lineAt l t = l.pos := by
+      cases l with | mk pos dir =>
+      simp only at h0; subst h0
+      simp only [lineAt, zero, zero_mul, add_zero]
+    rw [this] at hon
+    unfold OnSphere at hon
+    linarith
+
+/-- OUT OF DOMAIN witness: a direction of length 2.  Sphere of radius 1 about the origin, line from `(−4,0,0)` with direction
+`(2,0,0)`: the code answers `t = 1`, the point `(−2,0,0)`, which is not on the sphere (the true parameter is `3/2`) -/
+theorem Sphere3_intersectT_nonunit_witness (sqrt : α → α) (hsqrt : SqrtSpec sqrt) :
+    Gen.Sphere3.intersectT sqrt ⟨⟨0, 0, 0⟩, 1⟩ ⟨⟨-4, 0, 0⟩, ⟨2, 0, 0⟩⟩ = (true, 1) ∧
+    ¬ OnSphere (⟨⟨0, 0, 0⟩, 1⟩ : Sphere3 α) (lineAt ⟨⟨-4, 0, 0⟩, ⟨2, 0, 0⟩⟩ 1) ∧
+    OnSphere (⟨⟨0, 0, 0⟩, 1⟩ : Sphere3 α) (lineAt ⟨⟨-4, 0, 0⟩, ⟨2, 0, 0⟩⟩ (3 / 2)) := by
+  have hB : sphB (⟨⟨0, 0, 0⟩, 1⟩ : Sphere3 α) ⟨⟨-4, 0, 0⟩, ⟨2, 0, 0⟩⟩ = -16 := by simp only [sphB, dot, sub]; norm_num
+  have hD : sphD (⟨⟨0, 0, 0⟩, 1⟩ : Sphere3 α) ⟨⟨-4, 0, 0⟩, ⟨2, 0, 0⟩⟩ = 196 := by simp only [sphD, hB, sphC, dot, sub]; norm_num
+  obtain ⟨hr, hr0⟩ := hsqrt (196 : α) (by norm_num)
+  have h14 : sqrt (196 : α) = 14 := by
+    have : (sqrt 196 - 14) * (sqrt 196 + 14) = 0 := by ring_nf; linarith
+    rcases mul_eq_zero.mp this with h | h <;> linarith
+  refine ⟨?_, ?_, ?_⟩
+  · rcases Sphere3_intersectT_cases sqrt (⟨⟨0, 0, 0⟩, 1⟩ : Sphere3 α) ⟨⟨-4, 0, 0⟩, ⟨2, 0, 0⟩⟩ with ⟨hd, _⟩ | ⟨_, _, h⟩ | ⟨_, h1, _⟩ | ⟨_, h1, _⟩
+    · rw [hD] at hd; norm_num at hd
+    · rw [h, hB, hD, h14]; norm_num
+    · rw [hB, hD, h14] at h1; norm_num at h1
+    · rw [hB, hD, h14] at h1; norm_num at h1
+  · simp only [OnSphere, dist2, dot, sub, lineAt]; norm_num
+  · simp only [OnSphere, dist2, dot, sub, lineAt]; norm_num
 
 /-- `circumscribe(box)`: the centre is the midpoint, the radius the half diagonal; every point of the box (in
 particular every corner) is inside the closed ball, and the corners `min`, `max` are ON the sphere (tight) -/
@@ -998,6 +1273,19 @@ theorem LineAlgo_closestVertex (v0 v1 v2 : V3 α) (l : Line3 α) :
     simp only [dist2, dot, sub, Gen.Line3.closestPointToPoint]
     rcases hv with h | h | h <;> (subst h; linarith)
 
+/-- `closestVertex(v0,v1,v2,line)` against the independent vocabulary (unit direction): the returned vertex is at least as near to
+the LINE as any of the three vertices — for every vertex `v` and every point `l(t)` of the line there is a point `l(s)` with
+`|cv − l(s)|² ≤ |v − l(t)|²` -/
+theorem LineAlgo_closestVertex_geo (v0 v1 v2 : V3 α) (l : Line3 α) (hu : dot l.dir l.dir = 1) :
+    (Gen.LineAlgo.closestVertex v0 v1 v2 l = v0 ∨ Gen.LineAlgo.closestVertex v0 v1 v2 l = v1 ∨ Gen.LineAlgo.closestVertex v0 v1 v2 l = v2) ∧
+    ∀ v, v = v0 ∨ v = v1 ∨ v = v2 → ∀ t, ∃ s, dist2 (Gen.LineAlgo.closestVertex v0 v1 v2 l) (lineAt l s) ≤ dist2 v (lineAt l t) := by
+  obtain ⟨h1, h2⟩ := LineAlgo_closestVertex v0 v1 v2 l
+  refine ⟨h1, fun v hv t => ?_⟩
+  obtain ⟨⟨s, hs⟩, _, _⟩ := Line3_closestPointToPoint l (Gen.LineAlgo.closestVertex v0 v1 v2 l) hu
+  refine ⟨s, ?_⟩
+  rw [← hs]
+  exact le_trans (h2 v hv) ((Line3_closestPointToPoint l v hu).2.2 t)
+
 /-- `rotatePoint(p, l, angle)` for a unit direction: with `q` the foot of the perpendicular from `p` and `x = p − q`,
 the result is `q + cos(angle)·x + sin(angle)·(x × dir)` (Rodrigues' formula for the rotation about the line; `x × dir`
 is `x` turned by a quarter turn in the plane perpendicular to the line).  A point on the line is fixed. -/
@@ -1037,6 +1325,14 @@ theorem LineAlgo_rotatePoint (tmin tmax : α) (sqrt sin cos : α → α) (hlen :
     subst hL1
     simp only [one_ne_zero, if_false, div_one, add, sub, smul, cross, V3.mk.injEq]
     refine ⟨?_, ?_, ?_⟩ <;> field_simp <;> ring
+
+/-- `rotatePoint` against the independent vocabulary: the foot of the perpendicular written with `lineAt` -/
+theorem LineAlgo_rotatePoint_geo (tmin tmax : α) (sqrt sin cos : α → α) (hlen : LenSpec (Gen.V3.length tmin tmax sqrt))
+    (p : V3 α) (l : Line3 α) (angle : α) (hu : dot l.dir l.dir = 1) :
+    Gen.LineAlgo.rotatePoint tmin tmax sqrt sin cos p l angle =
+      add (add (lineAt l (dot (sub p l.pos) l.dir)) (smul (cos angle) (sub p (lineAt l (dot (sub p l.pos) l.dir)))))
+        (smul (sin angle) (cross (sub p (lineAt l (dot (sub p l.pos) l.dir))) l.dir)) := by
+  rw [LineAlgo_rotatePoint tmin tmax sqrt sin cos hlen p l angle hu, Line3_closestPointToPoint_def]
 
 /-- consequently (with `sin² + cos² = 1`) the image stays on the circle through `p` around the line: same distance
 from the foot `q`, still in the plane through `q` perpendicular to the line, at angle `angle` from `p − q` -/
@@ -1385,7 +1681,7 @@ theorem LineAlgo_intersect_degenerate (tmin tmax : α) (sqrt : α → α) (hlen 
 
 /-! ## the length hypothesis is satisfiable: it FOLLOWS from `SqrtSpec sqrt` for the real `Vec::length()` bodies -/
 
-/-- `Vec3::length()` (all 65 paths incl. `lengthTiny`) satisfies `LenSpec` for every `tmin` once `sqrt` is a square root -/
+/-- `Vec3::length()` (all 129 paths incl. `lengthTiny` and the `tmax` overflow arm) satisfies `LenSpec` for every `tmin`, `tmax` once `sqrt` is a square root -/
 theorem V3_length_LenSpec (tmin tmax : α) (sqrt : α → α) (hs : SqrtSpec sqrt) : LenSpec (Gen.V3.length tmin tmax sqrt) :=
   V3_length_spec tmin tmax sqrt hs
 theorem V2_length_LenSpec (tmin tmax : α) (sqrt : α → α) (hs : SqrtSpec sqrt) : LenSpec2 (Gen.V2.length tmin tmax sqrt) :=
@@ -1437,5 +1733,260 @@ example : ((fun _ : ℚ => (3 : ℚ) / 5) 0) ^ 2 + ((fun _ : ℚ => (4 : ℚ) / 
 /-- `Sphere3_circumscribe`: a point of a box -/
 example : InBox (⟨⟨0, 0, 0⟩, ⟨1, 2, 3⟩⟩ : Box3 ℚ) ⟨1 / 2, 1, 3⟩ := by simp only [InBox]; norm_num
 end NonVacuity
+
+/-! ## the property text's reading of `reflectVector` / `reflect` is FALSE for the code (recorded deviations)
+
+The property says "reflectPoint/reflectVector are involutions that negate signed distance", and `ImathVecAlgo.h` documents
+`reflect(s,t)` as "the direction of a ray `s` after reflection off a plane with normal `t`" (that is `s − 2·proj_t(s)`).  The code
+returns the NEGATIVE of the mirror image in both places (`Plane3_reflectVector`, `VecAlgo3_reflect` state what it does).  The
+negation witnesses below are standing findings (`reflectVector:normal-component-kept-not-negated`,
+`VecAlgo.reflect:returns-negative-of-documented-reflection`); the check replays the same inputs on the real code. -/
+
+/-- plane `z = 0` (normal `(0,0,1)`), `v = (1,2,3)`: the code gives `(−1,−2,3)` — the normal component `n·v = 3` is KEPT, not negated;
+the mirror image of `v` in the plane is `(1,2,−3)` -/
+theorem Plane3_reflectVector_keeps_normal_component_witness :
+    Gen.Plane3.reflectVector (⟨⟨0, 0, 1⟩, 0⟩ : Plane3 α) ⟨1, 2, 3⟩ = ⟨-1, -2, 3⟩ ∧
+    dot (⟨0, 0, 1⟩ : V3 α) (Gen.Plane3.reflectVector (⟨⟨0, 0, 1⟩, 0⟩ : Plane3 α) ⟨1, 2, 3⟩) ≠ - dot (⟨0, 0, 1⟩ : V3 α) ⟨1, 2, 3⟩ ∧
+    Gen.Plane3.reflectVector (⟨⟨0, 0, 1⟩, 0⟩ : Plane3 α) ⟨1, 2, 3⟩ ≠ sub ⟨1, 2, 3⟩ (smul (2 * dot (⟨0, 0, 1⟩ : V3 α) ⟨1, 2, 3⟩) ⟨0, 0, 1⟩) := by
+  have h : Gen.Plane3.reflectVector (⟨⟨0, 0, 1⟩, 0⟩ : Plane3 α) ⟨1, 2, 3⟩ = ⟨-1, -2, 3⟩ := by
+    simp only [Gen.Plane3.reflectVector, V3.mk.injEq]; refine ⟨?_, ?_, ?_⟩ <;> norm_num
+  refine ⟨h, ?_, ?_⟩
+  · rw [h]; simp only [dot]; norm_num
+  · rw [h]; simp only [sub, smul, dot, V3.mk.injEq]; norm_num
+
+/-- in general (unit normal): the normal component is negated ONLY for vectors in the plane (`n·v = 0`) -/
+theorem Plane3_reflectVector_negates_normal_component_iff (pl : Plane3 α) (v : V3 α) (hu : dot pl.normal pl.normal = 1) :
+    dot pl.normal (Gen.Plane3.reflectVector pl v) = - dot pl.normal v ↔ dot pl.normal v = 0 := by
+  rw [((Plane3_reflectVector pl v).2 hu).1]
+  constructor
+  · intro h; linarith
+  · intro h; rw [h]; ring
+
+/-- `reflect(s,t)` with `s = (1,2,3)`, `t = (0,0,1)`: the code gives `(−1,−2,3)`; the ray `s` after reflection off the plane with
+normal `t`, as the header comment defines the function, is `s − 2·proj_t(s) = (1,2,−3)` -/
+theorem VecAlgo3_reflect_negative_of_documented_witness (tmin tmax : α) (sqrt : α → α) (hlen : LenSpec (Gen.V3.length tmin tmax sqrt)) :
+    Gen.VecAlgo3.reflect tmin tmax sqrt ⟨1, 2, 3⟩ ⟨0, 0, 1⟩ = ⟨-1, -2, 3⟩ ∧
+    sub (⟨1, 2, 3⟩ : V3 α) (smul 2 (Gen.VecAlgo3.project tmin tmax sqrt ⟨0, 0, 1⟩ ⟨1, 2, 3⟩)) = ⟨1, 2, -3⟩ ∧
+    Gen.VecAlgo3.reflect tmin tmax sqrt ⟨1, 2, 3⟩ ⟨0, 0, 1⟩ ≠ sub (⟨1, 2, 3⟩ : V3 α) (smul 2 (Gen.VecAlgo3.project tmin tmax sqrt ⟨0, 0, 1⟩ ⟨1, 2, 3⟩)) := by
+  have hp : Gen.VecAlgo3.project tmin tmax sqrt ⟨0, 0, 1⟩ ⟨1, 2, 3⟩ = (⟨0, 0, 3⟩ : V3 α) := by
+    rw [VecAlgo3_project tmin tmax sqrt hlen]; simp only [smul, dot, V3.mk.injEq]; norm_num
+  have hr : Gen.VecAlgo3.reflect tmin tmax sqrt ⟨1, 2, 3⟩ ⟨0, 0, 1⟩ = (⟨-1, -2, 3⟩ : V3 α) := by
+    rw [(VecAlgo3_reflect tmin tmax sqrt hlen ⟨1, 2, 3⟩ ⟨0, 0, 1⟩).1, hp]; simp only [sub, smul, V3.mk.injEq]; norm_num
+  refine ⟨hr, ?_, ?_⟩
+  · rw [hp]; simp only [sub, smul, V3.mk.injEq]; norm_num
+  · rw [hr, hp]; simp only [sub, smul, V3.mk.injEq]; norm_num
+
+/-! ## pinned statements
+
+Each headline theorem is USED here at its full statement (written out a second time, the function value abbreviated as `r`).
+A theorem whose statement is weakened during a proof repair (a conjunct dropped, a hypothesis added) no longer proves its
+pinned copy, and the check reports `theorem:<name>_pinned`; a removed theorem is reported through the `required` list of
+`tools/props/c15.py`. -/
+
+theorem Line3_set_pinned (tmin tmax : α) (sqrt : α → α) (hlen : LenSpec (Gen.V3.length tmin tmax sqrt)) (p0 p1 : V3 α) (hne : p0 ≠ p1) :
+    ∀ r, r = Gen.Line3.set tmin tmax sqrt p0 p1 →
+      r.pos = p0 ∧ dot r.dir r.dir = 1 ∧ ∃ k, 0 < k ∧ k ^ 2 = dist2 p1 p0 ∧ sub p1 p0 = smul k r.dir := by
+  intro r hr; subst hr; exact Line3_set tmin tmax sqrt hlen p0 p1 hne
+
+theorem Line3_closestPointToPoint_pinned (l : Line3 α) (p : V3 α) (hu : dot l.dir l.dir = 1) :
+    ∀ r, r = Gen.Line3.closestPointToPoint l p →
+      OnLine l r ∧ dot (sub p r) l.dir = 0 ∧ ∀ t, dist2 p r ≤ dist2 p (lineAt l t) := by
+  intro r hr; subst hr; exact Line3_closestPointToPoint l p hu
+
+theorem Line3_distanceToPoint_pinned (tmin tmax : α) (sqrt : α → α) (hlen : LenSpec (Gen.V3.length tmin tmax sqrt)) (l : Line3 α) (p : V3 α) :
+    ∀ r, r = Gen.Line3.distanceToPoint tmin tmax sqrt l p →
+      0 ≤ r ∧ r ^ 2 = dist2 (Gen.Line3.closestPointToPoint l p) p ∧ (dot l.dir l.dir = 1 → ∀ t, r ^ 2 ≤ dist2 p (lineAt l t)) := by
+  intro r hr; subst hr; exact Line3_distanceToPoint tmin tmax sqrt hlen l p
+
+theorem Line3_closestPointToLine_pinned (tmax : α) (l1 l2 : Line3 α) (hu1 : dot l1.dir l1.dir = 1) (hu2 : dot l2.dir l2.dir = 1) :
+    ∀ r, r = Gen.Line3.closestPointToLine tmax l1 l2 →
+      OnLine l1 r ∧ (dot l2.dir l1.dir ^ 2 = 1 → r = l1.pos) ∧
+      (dot l2.dir l1.dir ^ 2 ≠ 1 →
+        (r = lineAt l1 (cplParam l1 l2) ∨ (tmax ≤ |cplParam l1 l2| ∧ r = l1.pos)) ∧
+        (|cplParam l1 l2| < tmax → r = lineAt l1 (cplParam l1 l2)) ∧
+        dot (sub (lineAt l1 (cplParam l1 l2)) (Gen.Line3.closestPointToPoint l2 (lineAt l1 (cplParam l1 l2)))) l1.dir = 0 ∧
+        dot (sub (lineAt l1 (cplParam l1 l2)) (Gen.Line3.closestPointToPoint l2 (lineAt l1 (cplParam l1 l2)))) l2.dir = 0) := by
+  intro r hr; subst hr; exact Line3_closestPointToLine tmax l1 l2 hu1 hu2
+
+theorem LineAlgo_closestPoints_pinned (tmax : α) (l1 l2 : Line3 α) (hu1 : dot l1.dir l1.dir = 1) (hu2 : dot l2.dir l2.dir = 1) :
+    ∀ r, r = Gen.LineAlgo.closestPoints tmax l1 l2 →
+      (r.1 = true → OnLine l1 r.2.1 ∧ OnLine l2 r.2.2 ∧ dot (sub r.2.1 r.2.2) l1.dir = 0 ∧ dot (sub r.2.1 r.2.2) l2.dir = 0 ∧
+        ∀ s t, dist2 r.2.1 r.2.2 ≤ dist2 (lineAt l1 s) (lineAt l2 t)) ∧
+      (dot l1.dir l2.dir ^ 2 = 1 → r.1 = false) ∧
+      (r.1 = false → dot l1.dir l2.dir ^ 2 = 1 ∨
+        ∃ s t, dot (sub (lineAt l1 s) (lineAt l2 t)) l1.dir = 0 ∧ dot (sub (lineAt l1 s) (lineAt l2 t)) l2.dir = 0 ∧ (tmax ≤ |s| ∨ tmax ≤ |t|)) := by
+  intro r hr; subst hr; exact LineAlgo_closestPoints tmax l1 l2 hu1 hu2
+
+theorem Line3_distanceToLine_pinned (tmin tmax : α) (sqrt : α → α) (hlen : LenSpec (Gen.V3.length tmin tmax sqrt)) (l1 l2 : Line3 α)
+    (hu1 : dot l1.dir l1.dir = 1) (hu2 : dot l2.dir l2.dir = 1) :
+    ∀ r, r = Gen.Line3.distanceToLine tmin tmax sqrt l1 l2 →
+      0 ≤ r ∧ (∀ s t, r ^ 2 ≤ dist2 (lineAt l1 s) (lineAt l2 t)) ∧ (∃ s t, r ^ 2 = dist2 (lineAt l1 s) (lineAt l2 t)) ∧
+      (cross l1.dir l2.dir ≠ zero → ∀ Lc, 0 ≤ Lc → Lc ^ 2 = dot (cross l1.dir l2.dir) (cross l1.dir l2.dir) →
+        r * Lc = |dot (sub l2.pos l1.pos) (cross l1.dir l2.dir)|) := by
+  intro r hr; subst hr; exact Line3_distanceToLine tmin tmax sqrt hlen l1 l2 hu1 hu2
+
+theorem Plane3_setPoints_pinned (tmin tmax : α) (sqrt : α → α) (hlen : LenSpec (Gen.V3.length tmin tmax sqrt)) (p1 p2 p3 : V3 α)
+    (hnc : cross (sub p2 p1) (sub p3 p1) ≠ zero) :
+    ∀ r, r = Gen.Plane3.setPoints tmin tmax sqrt p1 p2 p3 →
+      dot r.normal r.normal = 1 ∧ OnPlane r p1 ∧ OnPlane r p2 ∧ OnPlane r p3 ∧
+      ∃ k, 0 < k ∧ cross (sub p2 p1) (sub p3 p1) = smul k r.normal := by
+  intro r hr; subst hr; exact Plane3_setPoints tmin tmax sqrt hlen p1 p2 p3 hnc
+
+theorem Plane3_setPointNormal_pinned (tmin tmax : α) (sqrt : α → α) (hlen : LenSpec (Gen.V3.length tmin tmax sqrt)) (point n : V3 α) (hn : n ≠ zero) :
+    ∀ r, r = Gen.Plane3.setPointNormal tmin tmax sqrt point n →
+      dot r.normal r.normal = 1 ∧ OnPlane r point ∧ ∃ k, 0 < k ∧ n = smul k r.normal := by
+  intro r hr; subst hr; exact Plane3_setPointNormal tmin tmax sqrt hlen point n hn
+
+theorem Plane3_setNormalDistance_pinned (tmin tmax : α) (sqrt : α → α) (hlen : LenSpec (Gen.V3.length tmin tmax sqrt)) (n : V3 α) (d : α) (hn : n ≠ zero) :
+    ∀ r, r = Gen.Plane3.setNormalDistance tmin tmax sqrt n d →
+      dot r.normal r.normal = 1 ∧ r.distance = d ∧ OnPlane r (smul d r.normal) ∧ ∃ k, 0 < k ∧ n = smul k r.normal := by
+  intro r hr; subst hr; exact Plane3_setNormalDistance tmin tmax sqrt hlen n d hn
+
+theorem Plane3_reflectPoint_pinned (pl : Plane3 α) (p : V3 α) :
+    ∀ r, r = Gen.Plane3.reflectPoint pl p →
+      r = sub p (smul (2 * signedDist pl p) pl.normal) ∧
+      (dot pl.normal pl.normal = 1 → signedDist pl r = - signedDist pl p ∧ Gen.Plane3.reflectPoint pl r = p) := by
+  intro r hr; subst hr; exact Plane3_reflectPoint pl p
+
+theorem Plane3_reflectVector_pinned (pl : Plane3 α) (v : V3 α) :
+    ∀ r, r = Gen.Plane3.reflectVector pl v →
+      r = sub (smul (2 * dot pl.normal v) pl.normal) v ∧
+      (dot pl.normal pl.normal = 1 → dot pl.normal r = dot pl.normal v ∧ dot r r = dot v v ∧ Gen.Plane3.reflectVector pl r = v) := by
+  intro r hr; subst hr; exact Plane3_reflectVector pl v
+
+theorem Plane3_intersectT_pinned (pl : Plane3 α) (l : Line3 α) :
+    ∀ r, r = Gen.Plane3.intersectT pl l →
+      (dot pl.normal l.dir ≠ 0 → r.1 = true ∧ OnPlane pl (lineAt l r.2) ∧ ∀ t, OnPlane pl (lineAt l t) → t = r.2) ∧
+      (dot pl.normal l.dir = 0 → r.1 = false) := by
+  intro r hr; subst hr; exact Plane3_intersectT pl l
+
+theorem Plane3_mulM44_pinned (tmin tmax : α) (sqrt : α → α) (hlen : LenSpec (Gen.V3.length tmin tmax sqrt)) (pl : Plane3 α) (m : M44 α)
+    (hu : dot pl.normal pl.normal = 1) (haff : Affine m) (hdet : det3 m ≠ 0) :
+    ∀ r, r = Gen.Plane3.mulM44 tmin tmax sqrt pl m →
+      dot r.normal r.normal = 1 ∧ ∃ κ, 0 < κ ∧ ∀ p, signedDist r (mulM44 p m) = κ * det3 m * signedDist pl p := by
+  intro r hr; subst hr; exact Plane3_mulM44 tmin tmax sqrt hlen pl m hu haff hdet
+
+theorem Plane3_mulM44_projective_pinned (tmin tmax : α) (sqrt : α → α) (hlen : LenSpec (Gen.V3.length tmin tmax sqrt)) (pl : Plane3 α) (m : M44 α)
+    (hu : dot pl.normal pl.normal = 1) (hw : MulM44Defined pl m) :
+    ∀ r, r = Gen.Plane3.mulM44 tmin tmax sqrt pl m →
+      (r = ⟨zero, 0⟩ ∨ dot r.normal r.normal = 1) ∧
+      (∃ κ W, 0 ≤ κ ∧ W ≠ 0 ∧ (det4 m ≠ 0 → 0 < κ ∧ dot r.normal r.normal = 1) ∧
+        ∀ p, wOf p m ≠ 0 → signedDist r (mulM44 p m) * (wOf p m * W) = κ * det4 m * signedDist pl p) ∧
+      (∀ p, wOf p m ≠ 0 → OnPlane pl p → OnPlane r (mulM44 p m)) := by
+  intro r hr; subst hr
+  obtain ⟨h1, h2⟩ := Plane3_mulM44_projective tmin tmax sqrt hlen pl m hu hw
+  exact ⟨h1, h2, fun p hp hon => Plane3_mulM44_projective_contains tmin tmax sqrt hlen pl m hu hw p hp hon⟩
+
+theorem Sphere3_intersectT_pinned (sqrt : α → α) (hsqrt : SqrtSpec sqrt) (s : Sphere3 α) (l : Line3 α) (hu : dot l.dir l.dir = 1) :
+    ∀ r, r = Gen.Sphere3.intersectT sqrt s l →
+      (r.1 = true → 0 ≤ r.2 ∧ OnSphere s (lineAt l r.2) ∧ ∀ t, 0 ≤ t → OnSphere s (lineAt l t) → r.2 ≤ t) ∧
+      (r.1 = false → ∀ t, 0 ≤ t → ¬ OnSphere s (lineAt l t)) := by
+  intro r hr; subst hr; exact Sphere3_intersectT sqrt hsqrt s l hu
+
+theorem Sphere3_circumscribe_pinned (tmin tmax : α) (sqrt : α → α) (hlen : LenSpec (Gen.V3.length tmin tmax sqrt)) (b : Box3 α) :
+    ∀ r, r = Gen.Sphere3.circumscribe tmin tmax sqrt b →
+      (∀ p, InBox b p → InBall r p) ∧ OnSphere r b.max ∧ OnSphere r b.min ∧ 0 ≤ r.radius := by
+  intro r hr; subst hr; exact Sphere3_circumscribe tmin tmax sqrt hlen b
+
+theorem LineAlgo_intersect_sound_pinned (tmin tmax : α) (sqrt : α → α) (hlen : LenSpec (Gen.V3.length tmin tmax sqrt))
+    (l : Line3 α) (v0 v1 v2 : V3 α) :
+    ∀ r, r = Gen.LineAlgo.intersect tmin tmax sqrt l v0 v1 v2 → r.1 = true →
+      OnLine l r.2.1 ∧ 0 ≤ r.2.2.1.x ∧ 0 ≤ r.2.2.1.y ∧ 0 ≤ r.2.2.1.z ∧ r.2.2.1.x + r.2.2.1.y + r.2.2.1.z = 1 ∧
+      r.2.1 = baryPoint r.2.2.1 v0 v1 v2 ∧ InTriangle v0 v1 v2 r.2.1 ∧ (r.2.2.2 = true ↔ dot l.dir (triN v0 v1 v2) < 0) := by
+  intro r hr ht; subst hr; exact LineAlgo_intersect_sound tmin tmax sqrt hlen l v0 v1 v2 ht
+
+theorem LineAlgo_intersect_complete_pinned (tmin tmax : α) (sqrt : α → α) (hlen : LenSpec (Gen.V3.length tmin tmax sqrt))
+    (l : Line3 α) (v0 v1 v2 : V3 α) (t : α) (hN : triN v0 v1 v2 ≠ zero) (hnp : dot l.dir (triN v0 v1 v2) ≠ 0)
+    (hin : InTriangle v0 v1 v2 (lineAt l t)) (ht : |t| < tmax) :
+    (Gen.LineAlgo.intersect tmin tmax sqrt l v0 v1 v2).1 = true ∧
+    ((triN v0 v1 v2 = zero ∨ dot l.dir (triN v0 v1 v2) = 0) → (Gen.LineAlgo.intersect tmin tmax sqrt l v0 v1 v2).1 = false) :=
+  ⟨LineAlgo_intersect_complete tmin tmax sqrt hlen l v0 v1 v2 t hN hnp hin ht, LineAlgo_intersect_degenerate tmin tmax sqrt hlen l v0 v1 v2⟩
+
+/-! ## joint non-vacuity: headline theorems instantiated over `ℝ` with `Real.sqrt` on concrete inputs, all hypotheses discharged
+together, and a concrete value derived -/
+section RealInstances
+
+/-- `Sphere3_intersectT`: sphere of radius 5 about the origin, ray from `(−5,0,0)` along `+x` (origin ON the sphere): `true`, `t = 0` -/
+theorem Sphere3_intersectT_real_instance :
+    Gen.Sphere3.intersectT Real.sqrt (⟨⟨0, 0, 0⟩, 5⟩ : Sphere3 ℝ) ⟨⟨-5, 0, 0⟩, ⟨1, 0, 0⟩⟩ = (true, 0) := by
+  obtain ⟨ht, hf⟩ := Sphere3_intersectT Real.sqrt realSqrtSpec (⟨⟨0, 0, 0⟩, 5⟩ : Sphere3 ℝ) ⟨⟨-5, 0, 0⟩, ⟨1, 0, 0⟩⟩ (by simp only [dot]; norm_num)
+  have hon : OnSphere (⟨⟨0, 0, 0⟩, 5⟩ : Sphere3 ℝ) (lineAt ⟨⟨-5, 0, 0⟩, ⟨1, 0, 0⟩⟩ 0) := by
+    simp only [OnSphere, dist2, dot, sub, lineAt]; norm_num
+  cases hb : (Gen.Sphere3.intersectT Real.sqrt (⟨⟨0, 0, 0⟩, 5⟩ : Sphere3 ℝ) ⟨⟨-5, 0, 0⟩, ⟨1, 0, 0⟩⟩).1 with
+  | false => exact absurd hon (hf hb 0 (le_refl _))
+  | true =>
+    obtain ⟨h0, _, hmin⟩ := ht hb
+    have := hmin 0 (le_refl _) hon
+    exact Prod.ext hb (le_antisymm this h0)
+
+/-- `LineAlgo_intersect_complete` + `_sound`: the triangle (0,0,0),(1,0,0),(0,1,0), the line from (1/4,1/4,1) straight down, `tmax = 2`:
+`true`, and the hit point is `(1/4,1/4,0)` -/
+theorem LineAlgo_intersect_real_instance :
+    (Gen.LineAlgo.intersect 0 2 Real.sqrt (⟨⟨1 / 4, 1 / 4, 1⟩, ⟨0, 0, -1⟩⟩ : Line3 ℝ) ⟨0, 0, 0⟩ ⟨1, 0, 0⟩ ⟨0, 1, 0⟩).1 = true ∧
+    InTriangle (⟨0, 0, 0⟩ : V3 ℝ) ⟨1, 0, 0⟩ ⟨0, 1, 0⟩
+      (Gen.LineAlgo.intersect 0 2 Real.sqrt (⟨⟨1 / 4, 1 / 4, 1⟩, ⟨0, 0, -1⟩⟩ : Line3 ℝ) ⟨0, 0, 0⟩ ⟨1, 0, 0⟩ ⟨0, 1, 0⟩).2.1 := by
+  have h := LineAlgo_intersect_complete 0 2 Real.sqrt (realLenSpec 0 2) (⟨⟨1 / 4, 1 / 4, 1⟩, ⟨0, 0, -1⟩⟩ : Line3 ℝ) ⟨0, 0, 0⟩ ⟨1, 0, 0⟩ ⟨0, 1, 0⟩ 1
+    (by simp only [triN, cross, sub, zero, V3.mk.injEq]; norm_num) (by simp only [triN, cross, sub, dot]; norm_num)
+    ⟨⟨1 / 2, 1 / 4, 1 / 4⟩, by norm_num, by norm_num, by norm_num, by norm_num, by simp only [baryPoint, add, smul, lineAt, V3.mk.injEq]; norm_num⟩
+    (by norm_num)
+  exact ⟨h, (LineAlgo_intersect_sound 0 2 Real.sqrt (realLenSpec 0 2) _ _ _ _ h).2.2.2.2.2.2.1⟩
+
+/-- `Plane3_mulM44` / `_contains` / `_sides`: the plane `(0,3/5,4/5)·x = 2`, `M` = scale 2 in x then translate by (5,6,7): the image of
+the plane point `(1,2,1)` is on `plane*M`, and the image of `(0,0,5)` (signed distance 2) stays on the positive side -/
+theorem Plane3_mulM44_real_instance (tmin tmax : ℝ) :
+    OnPlane (Gen.Plane3.mulM44 tmin tmax Real.sqrt (⟨⟨0, 3 / 5, 4 / 5⟩, 2⟩ : Plane3 ℝ) ⟨2, 0, 0, 0, 0, 1, 0, 0, 0, 0, 1, 0, 5, 6, 7, 1⟩)
+      (mulM44 ⟨1, 2, 1⟩ ⟨2, 0, 0, 0, 0, 1, 0, 0, 0, 0, 1, 0, 5, 6, 7, 1⟩) ∧
+    0 < signedDist (Gen.Plane3.mulM44 tmin tmax Real.sqrt (⟨⟨0, 3 / 5, 4 / 5⟩, 2⟩ : Plane3 ℝ) ⟨2, 0, 0, 0, 0, 1, 0, 0, 0, 0, 1, 0, 5, 6, 7, 1⟩)
+      (mulM44 ⟨0, 0, 5⟩ ⟨2, 0, 0, 0, 0, 1, 0, 0, 0, 0, 1, 0, 5, 6, 7, 1⟩) := by
+  have hu : dot (⟨0, 3 / 5, 4 / 5⟩ : V3 ℝ) ⟨0, 3 / 5, 4 / 5⟩ = 1 := by simp only [dot]; norm_num
+  have haff : Affine (⟨2, 0, 0, 0, 0, 1, 0, 0, 0, 0, 1, 0, 5, 6, 7, 1⟩ : M44 ℝ) := by simp only [Affine]; norm_num
+  have hdet : 0 < det3 (⟨2, 0, 0, 0, 0, 1, 0, 0, 0, 0, 1, 0, 5, 6, 7, 1⟩ : M44 ℝ) := by simp only [det3]; norm_num
+  constructor
+  · exact (Plane3_mulM44_contains tmin tmax Real.sqrt (realLenSpec tmin tmax) _ _ hu haff (ne_of_gt hdet) ⟨1, 2, 1⟩).mpr
+      (by simp only [OnPlane, signedDist, dot]; norm_num)
+  · exact (Plane3_mulM44_sides tmin tmax Real.sqrt (realLenSpec tmin tmax) _ _ hu haff hdet ⟨0, 0, 5⟩).1.mpr
+      (by simp only [signedDist, dot]; norm_num)
+
+/-- `Plane3_mulM44_projective`: a genuinely projective, non-singular matrix (`w = 1 + z/4`) and the plane `z = 1`: the construction
+`w`s are all `5/4`, `det M = 1`, and the image of the plane point `(3,−2,1)` is on `plane*M` -/
+theorem Plane3_mulM44_projective_real_instance (tmin tmax : ℝ) :
+    ¬ Affine (⟨1, 0, 0, 0, 0, 1, 0, 0, 0, 0, 1, 1 / 4, 0, 0, 0, 1⟩ : M44 ℝ) ∧
+    dot (Gen.Plane3.mulM44 tmin tmax Real.sqrt (⟨⟨0, 0, 1⟩, 1⟩ : Plane3 ℝ) ⟨1, 0, 0, 0, 0, 1, 0, 0, 0, 0, 1, 1 / 4, 0, 0, 0, 1⟩).normal
+        (Gen.Plane3.mulM44 tmin tmax Real.sqrt (⟨⟨0, 0, 1⟩, 1⟩ : Plane3 ℝ) ⟨1, 0, 0, 0, 0, 1, 0, 0, 0, 0, 1, 1 / 4, 0, 0, 0, 1⟩).normal = 1 ∧
+    OnPlane (Gen.Plane3.mulM44 tmin tmax Real.sqrt (⟨⟨0, 0, 1⟩, 1⟩ : Plane3 ℝ) ⟨1, 0, 0, 0, 0, 1, 0, 0, 0, 0, 1, 1 / 4, 0, 0, 0, 1⟩)
+      (mulM44 ⟨3, -2, 1⟩ ⟨1, 0, 0, 0, 0, 1, 0, 0, 0, 0, 1, 1 / 4, 0, 0, 0, 1⟩) := by
+  have hu : dot (⟨0, 0, 1⟩ : V3 ℝ) ⟨0, 0, 1⟩ = 1 := by simp only [dot]; norm_num
+  have hw : MulM44Defined (⟨⟨0, 0, 1⟩, 1⟩ : Plane3 ℝ) ⟨1, 0, 0, 0, 0, 1, 0, 0, 0, 0, 1, 1 / 4, 0, 0, 0, 1⟩ := by
+    refine ⟨by simp only [wOf, smul]; norm_num, fun D hD => ?_⟩
+    rcases hD with h | h | h <;> (subst h; simp only [wOf, add, smul, cross]; norm_num)
+  have hdet : det4 (⟨1, 0, 0, 0, 0, 1, 0, 0, 0, 0, 1, 1 / 4, 0, 0, 0, 1⟩ : M44 ℝ) ≠ 0 := by simp only [det4]; norm_num
+  obtain ⟨hunit, hiff⟩ := Plane3_mulM44_projective_iff tmin tmax Real.sqrt (realLenSpec tmin tmax) _ _ hu hw hdet
+  refine ⟨by simp only [Affine]; norm_num, hunit, (hiff ⟨3, -2, 1⟩ (by simp only [wOf]; norm_num)).mpr (by simp only [OnPlane, signedDist, dot]; norm_num)⟩
+
+/-- the remaining headline theorems applied to concrete real data with ALL their hypotheses discharged together -/
+example (tmin tmax : ℝ) := Line3_set tmin tmax Real.sqrt (realLenSpec tmin tmax) ⟨0, 0, 0⟩ ⟨1, 2, 2⟩ (by intro h; simp only [V3.mk.injEq] at h; norm_num at h)
+example := Line3_closestPointToLine (2 : ℝ) ⟨⟨0, 0, 0⟩, ⟨1, 0, 0⟩⟩ ⟨⟨0, 0, 1⟩, ⟨3 / 5, 4 / 5, 0⟩⟩ (by simp only [dot]; norm_num) (by simp only [dot]; norm_num)
+example := LineAlgo_closestPoints (2 : ℝ) ⟨⟨0, 0, 0⟩, ⟨1, 0, 0⟩⟩ ⟨⟨0, 0, 1⟩, ⟨3 / 5, 4 / 5, 0⟩⟩ (by simp only [dot]; norm_num) (by simp only [dot]; norm_num)
+example (tmin tmax : ℝ) := Line3_distanceToLine tmin tmax Real.sqrt (realLenSpec tmin tmax) ⟨⟨0, 0, 0⟩, ⟨1, 0, 0⟩⟩ ⟨⟨0, 0, 1⟩, ⟨3 / 5, 4 / 5, 0⟩⟩
+  (by simp only [dot]; norm_num) (by simp only [dot]; norm_num)
+example (tmin tmax : ℝ) := Plane3_setPoints tmin tmax Real.sqrt (realLenSpec tmin tmax) ⟨0, 0, 0⟩ ⟨1, 0, 0⟩ ⟨0, 1, 0⟩
+  (by simp only [cross, sub, zero, V3.mk.injEq]; norm_num)
+example (tmin tmax : ℝ) := Plane3_neg tmin tmax Real.sqrt (realLenSpec tmin tmax) ⟨⟨0, 3 / 5, 4 / 5⟩, 2⟩ (by simp only [dot]; norm_num)
+example (tmin tmax : ℝ) := LineAlgo_closestVertex_geo (⟨0, 0, 0⟩ : V3 ℝ) ⟨1, 0, 0⟩ ⟨0, 1, 0⟩ ⟨⟨0, 0, 1⟩, ⟨3 / 5, 4 / 5, 0⟩⟩ (by simp only [dot]; norm_num)
+example (tmin tmax : ℝ) := LineAlgo_rotatePoint_circle tmin tmax Real.sqrt (fun _ => 3 / 5) (fun _ => 4 / 5) (realLenSpec tmin tmax) ⟨1, 2, 3⟩ ⟨⟨0, 0, 1⟩, ⟨3 / 5, 4 / 5, 0⟩⟩ 1
+  (by simp only [dot]; norm_num) (by norm_num)
+end RealInstances
+
+/-! non-vacuity of the hypotheses of the new theorems -/
+/-- `Line3_closestPointToLine_no_div_by_zero`: a result different from `pos` (skew unit lines, foot at parameter 0 ≠ … ) — the
+guard predicate of the quotient branch holds with a non-zero denominator -/
+example : cplDen (⟨⟨0, 0, 0⟩, ⟨1, 0, 0⟩⟩ : Line3 ℚ) ⟨⟨1, 0, 1⟩, ⟨3 / 5, 4 / 5, 0⟩⟩ ≠ 0 ∧
+    |cplNum (⟨⟨0, 0, 0⟩, ⟨1, 0, 0⟩⟩ : Line3 ℚ) ⟨⟨1, 0, 1⟩, ⟨3 / 5, 4 / 5, 0⟩⟩| < |cplDen (⟨⟨0, 0, 0⟩, ⟨1, 0, 0⟩⟩ : Line3 ℚ) ⟨⟨1, 0, 1⟩, ⟨3 / 5, 4 / 5, 0⟩⟩| * 2 := by
+  simp only [cplDen, cplNum, dot, sub]; norm_num
+/-- and a parallel pair: zero denominator -/
+example : cplDen (⟨⟨0, 0, 0⟩, ⟨1, 0, 0⟩⟩ : Line3 ℚ) ⟨⟨0, 2, 0⟩, ⟨-1, 0, 0⟩⟩ = 0 := by simp only [cplDen, dot]; norm_num
+/-- `Sphere3_intersectT_zero_dir`: a zero direction, origin strictly inside -/
+example : (⟨⟨1, 0, 0⟩, zero⟩ : Line3 ℚ).dir = zero ∧ dist2 (⟨1, 0, 0⟩ : V3 ℚ) ⟨0, 0, 0⟩ < 2 * 2 := by
+  refine ⟨rfl, ?_⟩; simp only [dist2, dot, sub]; norm_num
 
 end ImathVerif.C15
